@@ -59,6 +59,9 @@ func run(out, prop string, n int, replay string, seed uint64, tmp string) int {
 	sum := hutil.NewSummary(prop, seed,
 		"one daemon process per scenario, fed through two real FIFOs: 1-8 sessions (accepted password / publickey / certificate login + LOGIN record + 0-6 events + optional CRED_DISP + optional strays; "+
 			"cron-like sessions without sshd login; console-like sessions without LOGIN record; unset-session records; sshd logins without audit session; failed-password / invalid-user lines), "+
+			"three scenarios in four with HOSTILE CLIENT-CHOSEN TEXT: failure lines (invalid user / failed password / maximum authentication attempts, with and without sshd's 'invalid user ' prefix) of other sshd processes whose user name - and certificate logins whose key id - "+
+			"is a complete accepted-password / accepted-publickey / certificate message for the PID of another session of the scenario under another account, behind every syslog decoration a parser might honour (sshd[PID]: / sshd-session[PID]: tags, a '<PID> ' column, "+
+			"BSD / ISO timestamp + host prefixes, PRI, RFC 5424, journald / JSON field syntax; after nothing, a word, CR, VT, FF, U+2028, U+0085, escaped newlines, tab, NUL), written before / after that session's LOGIN record and its genuine login: such a name must simply be recorded as a name, "+
 			"1-4 phases in which both pipes are written concurrently with writes split at arbitrary byte offsets; one scenario in four with LARGE events (execve events whose argument list makes the "+
 			"UserAction line 4-70 KiB, certificate logins with key ids / account names of some KiB, a burst of stand-alone failure lines on the sshd pipe for as long as the audit pipeline is writing the large events, no pacing, GOMAXPROCS >= 2); oracles evaluated on the output file from the generated history alone; "+
 			"non-trivial = at least one session with both halves, at least one UserAction in the output and completeness established by the sentinel; distinct by scenario")
@@ -168,6 +171,18 @@ func record(sum *hutil.Summary, prop string, sc *scenario, res runResult, v verd
 			sum.Distribution["total_output_lines_longer_than_4096"]++
 			if (i > 0 && len(lines[i-1]) > 0 && comp(lines[i-1]) != comp(l)) || (i+1 < len(lines) && len(lines[i+1]) > 0 && comp(lines[i+1]) != comp(l)) {
 				sum.Distribution["total_output_lines_longer_than_4096_next_to_a_line_of_the_other_pipeline"]++
+			}
+		}
+	}
+	for _, l := range sc.Sshd {
+		if h := l.Hostile; h != nil {
+			sum.Dist("hostile_text_lines")
+			sum.Dist("hostile_field_" + h.Field + "_in_" + l.Kind)
+			sum.Dist("hostile_embedded_" + h.Forged)
+			sum.Dist("hostile_decoration_" + h.Decoration)
+			sum.Dist("hostile_position_" + h.Position)
+			if h.Target < len(sc.Sessions) {
+				sum.Dist("hostile_target_session_" + sc.Sessions[h.Target].Kind)
 			}
 		}
 	}
